@@ -330,6 +330,17 @@ def observe_mutate(sc, _box=None):
             elif k == "get_sd":
                 r = get(b.steps(op[1]), doc, default=val(op[2]), store_default=True, **tkw)
                 fin("ok", [], r)
+            elif k == "get_sdc":
+                # get(..., default=<callable>, store_default=True): the callable is asked once, and what it returned
+                # is both stored and handed back
+                calls = [0]
+                dv = val(op[2])
+
+                def dflt():
+                    calls[0] += 1
+                    return dv
+                r = get(b.steps(op[1]), doc, default=dflt, store_default=True, **tkw)
+                fin("ok", [calls[0]], r)
             elif k == "h.new":
                 ms = list(itertools.islice(find_matches(b.steps(op[2]), doc), op[3] + 1))
                 m = ms[op[3]] if len(ms) > op[3] else None
@@ -626,6 +637,19 @@ def observe_descr_op(env, doc, op, fin, views, iters):
         else:
             views[lid] = (view, conv)
             fin("view", [], None, False)
+        return True
+    if k == "l.assign":
+        # assign a list view (taken from a list-typed attribute) to a list-typed attribute: the document holds the
+        # very list the view wraps afterwards
+        chain, lid = op[1], op[2]
+        ent = views.get(lid)
+        if ent is None:
+            fin("noview", [], None, False)
+            return True
+        cls = env.build(chain, lambda e: attr_list_typed(int, e) if e is not None else attr_list_typed(int))
+        holder = env.holder(cls, doc, chain)
+        setattr(holder, chain[-1][0], ent[0])
+        fin("ok", [], None, False)
         return True
     if k == "l.it.new":
         ent = views.get(op[2])
